@@ -28,6 +28,12 @@ def singleton_phens(rng):
          ('qh', [P('s', ['0000', '0001', '0000'], [['eq:1'], ['eq:2'], ['eq:3']], singleton=True)])],
         [('ph', [P('one', ['0000'], [['eq:0']], singleton=True), P('s', ['0000', '0010', '0000'], [['eq:0'], ['eq:1'], ['eq:2']], singleton=True)])],
     ]
+    # a predicate of a LATER block of the singleton raises on the very event its first block accepts (the stored run sees
+    # the event, raises, is left alone -- and is still there: no second run may start)
+    fam.append([('ph', [P('s', ['0000', '0000', '0000'], [['eq:0'], ['raiseif:0:eq:1'], ['eq:2']], singleton=True)])])
+    fam.append([('ph', [P('s', ['0000', '1000', '0000'], [['lt:2'], ['raiseif:1:eq:3'], ['eq:2']], singleton=True, halt=['raiseif:0:eq:9']),
+                        P('n', ['0000', '0000'], [['eq:0'], ['raiseif:0:eq:1']])])])
+    fam.append([('ph', [P('s', ['0000', '0000'], [['any'], ['eq:2']], singleton=True, pre=['raiseif:1:any'])])])
     # the same pattern NAME in two phenomena, singleton in one only (whatever is looked up or remembered by pattern name
     # alone confuses the two)
     for first_single in (True, False):
@@ -73,6 +79,19 @@ def exhaustive_cases():
                 else:
                     ops.append(a)
             yield Case(phens, 1000, ops, 'exh')
+    # the same alphabet of local events on a singleton whose second block raises on the value its first block accepts
+    rphens = [('ph', [P('s', ['0000', '0000', '0000'], [['eq:0'], ['raiseif:0:eq:1'], ['eq:2']], singleton=True)])]
+    for cache in (0, 1000):
+        for n in (2, 3, 4):
+            for seq in itertools.product(['L0', 'L1', 'L2', 'rem U f0|ph|s|2|g0=y:0:s:0;g1=z:5:s:1', 'rem C f0|ph|s|3|g0=y:0:s:0'], repeat=n - 1):
+                ops, t = [], 0
+                for a in ('L0',) + seq:
+                    if a[0] == 'L':
+                        ops.append(f'ev e{t} {t} s {a[1]}')
+                        t += 1
+                    else:
+                        ops.append(a)
+                yield Case(rphens, cache, ops, 'exh-raise')
 
 
 def per_case(case, rd, outs, r):
